@@ -5,6 +5,7 @@ import inst_check
 ASSUMPTIONS = [
     "theorems: class tables without do_not_copy=True classes and without plain subclasses; callbacks and default factories embed no heap references; the C02 conclusion has an extra disjunct for class-level default objects reached through getattr's class-attribute fallback (instance dict lacking the attribute: not produced by the API)",
     "oracle: structural sharing between result and receiver (canonical object graphs of the implementation) right after every copy-on-write call / deepcopy; this is stronger than visibility of later in-place mutations, which the follow-up operations of every history exercise through the model correspondence",
+    "the targeted histories also report oracle bit 32 (an instance holds a class-level default object itself): the oracle chain stops at the first failing operation, and two instances holding the same class-level object is the root cause of the result/receiver sharing that bit 4 would report on a later reset",
     "exempt: objects reachable from arguments of the call, values of do_not_copy attributes (and what they reach), the receiver itself when a no-op form returns it",
     "class grammar as C01 plus identity item preparers on List/Dict of spec instances and more do_not_copy attributes; KeyedList/KeyedSet attributes and do_not_copy=True classes are outside the model",
 ]
@@ -18,11 +19,11 @@ def targeted(chk, cases, bad, extra):
     n = 260 if chk.tier == "quick" else 4000
     n_ops = 7 if chk.tier == "quick" else 10
     mine = [c02_gen.gen_case_c02(chk.rng, n_ops) for _ in range(n)]
-    c02_gen.report(chk, "C02", 4, mine, extra, "targeted_histories")
+    c02_gen.report(chk, "C02", 4 | 32, mine, extra, "targeted_histories")
     extra["rule"] = extra.get("rule", "") + "; targeted = receiver built from fresh arguments, optional in-place setup, copy-on-write helpers / deepcopy / no-op forms (update_<coll>(MISSING|EMPTY|UNCHANGED), update_<spec attr>(), identity transforms, with_<attr>(sentinel)), then in-place mutation of a result and of the receiver"
 
 
 def main(tier, replay=None):
     if replay:
-        return inst_check.replay("C02", replay, 4)
+        return inst_check.replay("C02", replay, 4 | 32)
     return inst_check.run("C02", tier, 4, GENS, 160, 3000, ASSUMPTIONS, post=targeted)
